@@ -6,6 +6,9 @@ lib/src/compiler/ir/ast2ir.rs (fn escape, the producer's guard).
   `sort_by_key(|patch| patch.span().start())` (stable);
 * truncates_before_writing: `File::create(origin)` is executed before the
   loop that slices the input (so a slicing panic leaves a damaged file);
+* skips_overlapping: the loop starts with the guard `if span.start() <
+  input_pos || span.end() < span.start() || span.end() > input.len() { ..;
+  continue; }`;
 * the three slicing expressions of the loop are the ones Fix/Patch.v models
   (checked, not parameterised);
 * escape_table: the arms of `fn escape` (char -> replacement string) and the
@@ -44,10 +47,10 @@ def str_lit(s):
 def fix_flags(fix_src):
     body = strip_comments(fn_body(fix_src, "exec_fix_warnings", "cli/src/commands/fix.rs"))
     flat = re.sub(r"\s+", " ", body)
-    # sorting
-    m = re.search(r"\.sort_by_key\(\s*\|(\w+)\|\s*(\w+)\.span\(\)\.(\w+)\(\)\s*\)", flat)
+    # sorting: `|patch| patch.span().start()` or `|(_, patch)| patch.span().start()`
+    m = re.search(r"\.sort_by_key\(\s*\|(?:\(\s*_\s*,\s*(\w+)\s*\)|(\w+))\|\s*(\w+)\.span\(\)\.(\w+)\(\)\s*\)", flat)
     if m:
-        if m.group(1) != m.group(2) or m.group(3) != "start":
+        if (m.group(1) or m.group(2)) != m.group(3) or m.group(4) != "start":
             raise TranslateError(f"patches are sorted by something else than span().start(): {m.group(0)}")
         sorts = True
     elif re.search(r"\.sort", flat):
@@ -55,19 +58,21 @@ def fix_flags(fix_src):
     else:
         sorts = False
     # the application loop
-    lm = re.search(r"for patch in patches \{", flat)
+    lm = re.search(r"for (?:patch|\(\s*\w+\s*,\s*patch\s*\)) in patches \{", flat)
     if not lm:
         raise TranslateError("exec_fix_warnings: `for patch in patches {` not found")
     j = match_brace(flat, lm.end() - 1)
     loop = flat[lm.end():j]
     after = flat[j + 1:]
     before = flat[:lm.start()]
+    W = r"(?:\.write_all|\.extend_from_slice)"
+    Q = r"\)\??;"
     need = [
         (r"let warning_span = patch\.span\(\);", loop),
-        (r"\.write_all\(\s*&input\[input_pos\.\.warning_span\.start\(\)\]\s*\)\?;", loop),
-        (r"\.write_all\(\s*patch\.replacement\(\)\.as_bytes\(\)\s*\)\?;", loop),
+        (W + r"\(\s*&input\[input_pos\.\.warning_span\.start\(\)\]\s*" + Q, loop),
+        (W + r"\(\s*patch\.replacement\(\)\.as_bytes\(\)\s*" + Q, loop),
         (r"input_pos = warning_span\.end\(\);", loop),
-        (r"^\s*\w+\.write_all\(\s*&input\[input_pos\.\.\]\s*\)\?;", after),
+        (r"^\s*\w+" + W + r"\(\s*&input\[input_pos\.\.\]\s*" + Q, after),
         (r"let mut input_pos = 0;", before),
         (r"let input = fs::read\(origin\)\?;", before),
     ]
@@ -78,6 +83,19 @@ def fix_flags(fix_src):
     a = re.search(need[1][0], loop).start(); b = re.search(need[2][0], loop).start(); c = re.search(need[3][0], loop).start()
     if not (a < b < c):
         raise TranslateError("exec_fix_warnings: statements of the application loop are in a different order")
+    # is a patch that overlaps the previous one (or leaves the file) skipped?
+    skips = False
+    gm = re.search(r"\bif\b(.*?)\{(.*?)\}", loop)
+    if gm:
+        cond = re.sub(r"\s+", "", gm.group(1))
+        guard = "warning_span.start()<input_pos||warning_span.end()<warning_span.start()||warning_span.end()>input.len()"
+        if cond != guard or not re.search(r"\bcontinue;\s*$", gm.group(2).strip()) or gm.start() > a:
+            raise TranslateError(f"exec_fix_warnings: conditional inside the application loop not understood: if {gm.group(1).strip()[:120]}")
+        if re.search(r"\bif\b", loop[gm.end():]):
+            raise TranslateError("exec_fix_warnings: more than one conditional inside the application loop")
+        skips = True
+    if re.search(r"\b(break|return)\b", loop) or (not skips and re.search(r"\bcontinue\b", loop)):
+        raise TranslateError("exec_fix_warnings: control flow inside the application loop not understood")
     # where is the file created/truncated?
     created_before = re.search(r"File::create\(origin\)", before) is not None
     if created_before:
@@ -89,7 +107,7 @@ def fix_flags(fix_src):
         if not re.search(r"File::create\(|fs::write\(", after):
             raise TranslateError("exec_fix_warnings: cannot find where the output file is written")
         trunc = False
-    return sorts, trunc
+    return sorts, trunc, skips
 
 
 def escape_table(ast2ir):
@@ -126,7 +144,7 @@ def escape_table(ast2ir):
 
 
 def main():
-    sorts, trunc = fix_flags(src("cli/src/commands/fix.rs"))
+    sorts, trunc, skips = fix_flags(src("cli/src/commands/fix.rs"))
     table, lo, hi, extra = escape_table(src("lib/src/compiler/ir/ast2ir.rs"))
     b = lambda x: "true" if x else "false"
     nl = lambda l: "[" + "; ".join(str(x) for x in l) + "]"
@@ -140,6 +158,8 @@ Local Open Scope N_scope.
 Definition sorts_by_start : bool := {b(sorts)}.
 (* exec_fix_warnings: File::create(origin) happens before the slicing loop *)
 Definition truncates_before_writing : bool := {b(trunc)}.
+(* exec_fix_warnings: a patch with start < input_pos, end < start or end > len is skipped *)
+Definition skips_overlapping : bool := {b(skips)}.
 
 (* fn escape: char -> replacement; every other char is copied *)
 Definition escape_table : list (N * list N) := [{"; ".join(f"({c}, {nl(r)})" for c, r in table)}].
